@@ -23,6 +23,7 @@ from harness.common.ctx import Timeout, time_limit
 
 EXE = "c17_model"
 NATOMS = 8
+MAX_REPORTED = 25       # violations written out (shrunk, with replay); further ones are only counted
 
 
 # ------------------------------------------------------------------ terms and flattening
@@ -426,6 +427,34 @@ def shrink(ops, fails):
     return cur
 
 
+def shrink_terms(hops, fails):
+    """After op deletion: replace terms by their immediate subterms while the failure kind stays."""
+    kind = fails(hops)
+    if kind is None:
+        return hops
+    cur = [tuple(o) for o in hops]
+    changed = True
+    rounds = 0
+    while changed and rounds < 20:
+        changed = False
+        rounds += 1
+        for i, op in enumerate(cur):
+            for pos in (1, 2):
+                if pos < len(op) and isinstance(op[pos], tuple) and op[pos][0] == "app":
+                    for sub in (op[pos][1], op[pos][2]):
+                        cand = cur[:i] + [op[:pos] + (sub,) + op[pos + 1:]] + cur[i + 1:]
+                        try:
+                            k2 = fails(cand)
+                        except Exception:  # noqa
+                            k2 = None
+                        if k2 == kind:
+                            cur = cand
+                            op = cur[i]
+                            changed = True
+                            break
+    return cur
+
+
 def core_failure(congc):
     def fails(ops):
         try:
@@ -462,11 +491,21 @@ def check_core_batch(ctx, congc, seqs, stream, meta=None):
             continue
         for o in outs:
             ctx.count("%s:%s" % (stream, o[0] if o[0] != "err" else "err-" + o[1]))
+            if o[0] == "res" and any(l[0] == "f" for _, labs in o[1] for l in labs):
+                ctx.count("explanations-with-congruence-steps")
+            if o[0] == "res" and len(o[1]) >= 3:
+                ctx.count("explanations-with-nested-entries")
         j = judge_core(ops, outs)
-        if j:
+        if j and len(ctx.violations) >= MAX_REPORTED:
+            ctx.count("violations-beyond-the-first-%d" % MAX_REPORTED)
+        elif j:
             small = shrink(ops, core_failure(congc))
-            ctx.violation("%s:%s" % (j[0], json.dumps(small)), "CongClosure: " + j[2],
-                          {"stream": "core", "ops": small, "original_ops": ops, "kind": j[0], "failing_op_index": j[1]})
+            try:
+                js = judge_core(small, run_core(congc, small)) or j
+            except Timeout:
+                js = j
+            ctx.violation("%s:%s" % (j[0], json.dumps(small)), "CongClosure on %s: %s" % (small, js[2]),
+                          {"stream": "core", "ops": small, "original_ops": ops, "kind": j[0], "failing_op_index": js[1]})
         if model is not None:
             try:
                 m = sexp.loads(model[idx])
@@ -515,7 +554,13 @@ def run_eqs_core(congc, eqs, pre_terms=()):
 
 
 def check_order_independence(ctx, congc, eqs, perms, rng, stream):
-    base, fl0 = run_eqs_core(congc, eqs)
+    readable = [[term_str(s), term_str(t)] for s, t in eqs]
+    try:
+        with time_limit(60):
+            base, fl0 = run_eqs_core(congc, eqs)
+    except Exception as e:  # noqa  (the core streams report the details; here only the order matters)
+        ctx.count(stream + ":raise")
+        base, fl0 = ("raise", type(e).__name__), flatten_all([("merge", s, t) for s, t in eqs])[0]
     seqs = []
     for perm in perms:
         pe = [eqs[i] for i in perm]
@@ -526,16 +571,27 @@ def check_order_independence(ctx, congc, eqs, perms, rng, stream):
             pre = sorted(fl0.index, key=repr)
             rng.shuffle(pre)
             pre = pre[:rng.randint(1, len(pre))]
-        with time_limit(60):
-            part, fl = run_eqs_core(congc, pe, pre)
+        try:
+            with time_limit(60):
+                part, fl = run_eqs_core(congc, pe, pre)
+        except Exception as e:  # noqa
+            part, fl = ("raise", type(e).__name__), flatten_all([("addterm", t) for t in pre] + [("merge", s, t) for s, t in pe])[0]
         seqs.append([o for o in fl.ops])
         ctx.count(stream + ":orders")
-        if part != base:
-            ctx.violation("order-dependent:" + json.dumps([[term_str(s), term_str(t)] for s, t in eqs]) + ":" + json.dumps(list(perm)),
-                          "merging %s in order %s gives a different partition than the given order" %
-                          ([(term_str(s), term_str(t)) for s, t in eqs], list(perm)),
+        if part != base and len(ctx.violations) >= MAX_REPORTED:
+            ctx.count("violations-beyond-the-first-%d" % MAX_REPORTED)
+        elif part != base:
+            ctx.violation("order-dependent:" + json.dumps(readable) + ":" + json.dumps(list(perm)),
+                          "merging %s in order %s gives %s, the given order gives %s" %
+                          (readable, list(perm), show_part(part), show_part(base)),
                           {"stream": "perm", "eqs": eqs, "perm": list(perm), "pre_terms": pre, "flipped": pe})
     return seqs
+
+
+def show_part(p):
+    if isinstance(p, tuple):
+        return "an exception (%s)" % p[1]
+    return sorted(sorted(term_str(t) for t in c) for c in p)
 
 
 # ------------------------------------------------------------------ HOL wrapper
@@ -718,9 +774,21 @@ def check_hol_batch(ctx, env, congc, seqs):
             v, parts = run_hol(ctx, env, congc, hops)
         except Timeout:
             v, parts = ("hol-timeout", 0, "CongClosureHOL does not finish (60 s)"), []
+        if v and len(ctx.violations) >= MAX_REPORTED:
+            ctx.count("violations-beyond-the-first-%d" % MAX_REPORTED)
+            parts_all.append(None)
+            lines.append(ops_line([]))
+            continue
         if v:
             small = shrink(hops, hol_failure(ctx, env, congc))
-            ctx.violation("%s:%s" % (v[0], json.dumps(hops_json(small))), "CongClosureHOL: " + v[2],
+            small = shrink(shrink_terms(small, hol_failure(ctx, env, congc)), hol_failure(ctx, env, congc))
+            try:
+                vs = run_hol(ctx, env, congc, small)[0] or v
+            except Timeout:
+                vs = v
+            # crashes are keyed by exception and operation (one replay per class), the rest by input
+            key = "%s:%s" % (v[0], small[vs[1]][0]) if v[0].startswith("hol-raise:") else "%s:%s" % (v[0], json.dumps(hops_json(small)))
+            ctx.violation(key, "CongClosureHOL on %s: %s" % (hops_json(small), vs[2]),
                           {"stream": "hol", "hops": small, "readable": hops_json(small), "kind": v[0]})
             parts_all.append(None)
             lines.append(ops_line([]))
@@ -791,7 +859,9 @@ def run(ctx):
         "path_to_root / explain recursion carry fuel in the model; running out is reported as an error, never as an answer"]
     from prover import congc
     corpus = load_corpus(ctx)
+    ctx.log("lean obligations audited")
     env = HolEnv()
+    ctx.log("holpy theory loaded")
     have_model = True
     # corpus first
     if corpus.get("core"):
@@ -800,21 +870,21 @@ def run(ctx):
         check_hol_batch(ctx, env, congc, [[tup(o) for o in hops] for hops in corpus["hol"]])
     # raw stream
     rng = ctx.rng("raw")
-    seqs = [gen_raw_seq(rng) for _ in range(ctx.scale(1500, 25000))]
+    seqs = [gen_raw_seq(rng) for _ in range(ctx.scale(5000, 40000))]
     for s in seqs[:2]:
         ctx.sample({"raw": s})
     have_model &= check_core_batch(ctx, congc, seqs, "raw")
     ctx.log("raw stream done")
     # term stream
     rng = ctx.rng("term")
-    hseqs = [gen_term_seq(rng) for _ in range(ctx.scale(1200, 20000))]
+    hseqs = [gen_term_seq(rng) for _ in range(ctx.scale(4000, 30000))]
     for h in hseqs[:2]:
         ctx.sample({"term": hops_json(h)})
     have_model &= check_core_batch(ctx, congc, [flatten_all(h)[0].ops for h in hseqs], "term")
     ctx.log("term stream done")
     # permutations
     rng = ctx.rng("perm")
-    nsets = ctx.scale(60, 400)
+    nsets = ctx.scale(150, 500)
     pseqs = []
     for _ in range(nsets):
         k = rng.randint(2, 5)
@@ -836,7 +906,7 @@ def run(ctx):
     ctx.log("perm stream done")
     # HOL wrapper
     rng = ctx.rng("hol")
-    hol = [env.gen_seq(rng) for _ in range(ctx.scale(250, 4000))]
+    hol = [env.gen_seq(rng) for _ in range(ctx.scale(800, 6000))]
     for h in hol[:2]:
         ctx.sample({"hol": hops_json(h)})
     have_model &= check_hol_batch(ctx, env, congc, hol)
@@ -865,8 +935,14 @@ def replay(ctx, rp):
             still = True
     elif r.get("stream") == "perm":
         eqs = [tup(e) for e in r["eqs"]]
-        base, _ = run_eqs_core(congc, eqs)
-        other, _ = run_eqs_core(congc, [tup(e) for e in r["flipped"]], [tup(t) for t in r.get("pre_terms", [])])
+
+        def part_of(es, pre=()):
+            try:
+                return run_eqs_core(congc, es, pre)[0]
+            except Exception as e:  # noqa
+                return ("raise", type(e).__name__)
+        base = part_of(eqs)
+        other = part_of([tup(e) for e in r["flipped"]], [tup(t) for t in r.get("pre_terms", [])])
         if base != other:
             print("still fails: partitions differ between the two orders")
             still = True
@@ -884,7 +960,10 @@ MANIFEST = {
     "design_ref": "DESIGN.md 4/C17",
 }
 FINDINGS = [
-    {"status": "fixed", "key": "hol-raise:InvalidDerivationException:[[\"merge\", \"a\", \"b\", true], [\"merge\", \"c\", \"b\", true], [\"explain\", \"a\", \"c\"]]",
+    {"status": "fixed", "key": "hol-raise:InvalidDerivationException:explain", "commit": "fixes/C17-1.patch",
      "what": "CongClosureHOL.explain raised InvalidDerivationException whenever a proof-forest edge was traversed backwards after the first "
              "step (pt.transitive(pt, eq_pt.symmetric()) chained the running proof with itself), e.g. merge(a,b); merge(c,b); explain(a,c)"},
+    {"status": "fixed", "key": "hol-raise:KeyError:explain", "commit": "fixes/C17-2.patch",
+     "what": "CongClosureHOL.explain(t, t) raised KeyError for every term t (the core returns an empty dictionary for identical "
+             "constants and get_proofterm looked the pair up)"},
 ]
